@@ -6,10 +6,12 @@ by fresh steps.
 -/
 namespace GS.RespLife
 
-/-- the environment never re-uses a request id (a peer re-using a LIVE id is the known finding
-    `dup-live-id`; re-use of a retired id is excluded too, for simplicity) -/
+/-- a peer never sends a `new` request for an id that is LIVE for it: in the response table, waiting
+    in the mailbox, or parked inside `newRequest`.  Exactly the complement of the known finding
+    `dup-live-id`; ids may be re-used after retirement (the C06 resume flow does), and an id in use by
+    another peer is harmless (such a request is ignored, /repo 7d665e5). -/
 def FreshStep (s : State) : Action → Prop
-  | .recv _ (.new id _) => id ∉ s.seenIds
+  | .recv p (.new id _) => (p, id) ∉ keys s ∧ (p, id) ∉ newIds s.mailbox ∧ parkNew s.park ≠ some (p, id)
   | _ => True
 
 inductive ReachableFresh (c : Cfg) : State → Prop
@@ -76,6 +78,26 @@ theorem pi_resumeMgr_other (s : State) (pk : MgrPark) (hc : ∀ p id cfg, pk.con
   | procUpdate id plan => simp only; rw [pi_procUpdateFinish', pi_buildNow]; rfl
   | unpause id ext => simp only; rw [pi_emit_api, pi_unpauseFinish, pi_buildNow]; rfl
   | update id ext => simp only; rw [pi_emit_api, pi_buildNow]; rfl
+
+theorem own_of_not_foreign {s : State} {p : Peer} {id : Id} (h : foreign s p id = false) :
+    (∃ k ∈ keys s, k.2 = id) → (p, id) ∈ keys s := by
+  rintro ⟨k, hk, hid⟩
+  obtain ⟨r, hr, hrk⟩ := List.mem_map.1 hk
+  unfold foreign at h
+  cases hl : lookup s id with
+  | none =>
+    exfalso
+    unfold lookup at hl
+    have := List.find?_eq_none.1 hl r hr
+    simp only [beq_iff_eq] at this
+    apply this
+    rw [← hid, ← hrk]
+  | some r' =>
+    rw [hl] at h
+    simp only [bne_eq_false_iff_eq] at h
+    have := lookup_key hl
+    rw [h] at this
+    exact this
 
 theorem sop_rstep {x x' : Pi} (h : SameOrPark x x') : RStep x x' := by
   rcases h with h | ⟨c, p, id, ops, _, h⟩
@@ -187,16 +209,19 @@ theorem rstep_mgr {s s' : State} (h : mgrStep s = some s') : RStep (pi s) (pi s'
           cases r with
           | new id cfg =>
             have hx : pi { s with mailbox := rest, handled := s.handled + 1 } = { pi s with news := newIds rest } := rfl
-            have hn : (pi s).news = id :: newIds rest := by
+            have hn : (pi s).news = (p, id) :: newIds rest := by
               show newIds s.mailbox = _
               rw [hm]; rfl
             have hpn : (pi s).pnew = none := pnew_none hpk
             show RStep (pi s) (pi (if foreign _ p id = true then _ else newRequest _ p id cfg))
             split
-            · rw [hx]; exact RStep.dropNew _ id _ hn
-            · rcases pi_newRequest { s with mailbox := rest, handled := s.handled + 1 } p id cfg with h1 | ⟨c, h1⟩
-              · rw [h1, hx]; exact RStep.newOk _ p id _ hn hpn
-              · rw [h1, hx]; exact RStep.newPark _ p id _ c hn hpn
+            · rw [hx]; exact RStep.dropNew _ (p, id) _ hn
+            · rename_i hfor
+              have hown : (∃ k ∈ (pi s).keys, k.2 = id) → (p, id) ∈ (pi s).keys :=
+                own_of_not_foreign (s := { s with mailbox := rest, handled := s.handled + 1 }) (by simpa using hfor)
+              rcases pi_newRequest { s with mailbox := rest, handled := s.handled + 1 } p id cfg with h1 | ⟨c, h1⟩
+              · rw [h1, hx]; exact RStep.newOk _ p id _ hn hpn hown
+              · rw [h1, hx]; exact RStep.newPark _ p id _ c hn hpn hown
           | cancel id => simp [isNewMsg] at hnew
           | update id plan => simp [isNewMsg] at hnew
         | _ => simp [isNewMsg] at hnew
@@ -215,12 +240,12 @@ theorem rstep_step {s s' : State} {a : Action} (hf : FreshStep s a) (h : step s 
     cases r with
     | new id cfg =>
       have : pi (sendMsg { s with seenIds := s.seenIds ++ [id] } (Msg.processRequests p (ReqMsg.new id cfg))) =
-          { pi s with seen := (pi s).seen ++ [id], news := (pi s).news ++ [id] } := by
+          { pi s with seen := s.seenIds ++ [id], news := (pi s).news ++ [(p, id)] } := by
         simp only [pi, sendMsg, keys]
         congr 1
         simp [newIds, List.filterMap_append]
       rw [this]
-      exact RStep.recvNew _ id hf
+      exact RStep.recvNew _ p id _ hf.1 hf.2.1 hf.2.2
     | cancel id => rw [pi_mail _ _ rfl]; exact RStep.same _
     | update id plan => rw [pi_mail _ _ rfl]; exact RStep.same _
   | api c =>
@@ -261,7 +286,8 @@ def freshRun : State → List Action → Bool
   | _, [] => true
   | s, a :: as =>
     (match a with
-     | .recv _ (.new id _) => !s.seenIds.contains id
+     | .recv p (.new id _) =>
+       !(keys s).contains (p, id) && !(newIds s.mailbox).contains (p, id) && !(parkNew s.park == some (p, id))
      | _ => true) && freshRun ((step s a).getD s) as
 
 theorem reachableFresh_run {c : Cfg} {s : State} (h : ReachableFresh c s) (as : List Action)
@@ -279,7 +305,13 @@ theorem reachableFresh_run {c : Cfg} {s : State} (h : ReachableFresh c s) (as : 
       cases a with
       | recv p r =>
         cases r with
-        | new id cfg => simpa [FreshStep] using hf.1
+        | new id cfg =>
+          have h1 := hf.1
+          simp only [Bool.and_eq_true, Bool.not_eq_true'] at h1
+          refine ⟨?_, ?_, ?_⟩
+          · intro hm; have := h1.1.1; simp [hm] at this
+          · intro hm; have := h1.1.2; simp [hm] at this
+          · intro hm; have := h1.2; simp [hm] at this
         | _ => trivial
       | _ => trivial
 
